@@ -139,16 +139,22 @@ def observe_dask(x, keep=None):
         if gn != meta[2]:
             return ('badtype', f'ddf.geometry.name={gn!r} but meta.geometry.name={meta[2]!r}')
     parts = []
-    for dl in x.to_delayed():
+    got_frames = []
+    # partition i of the collection itself (to_delayed() may optimise a repartition away and
+    # show another partitioning than the one cx / partition_bounds / map_partitions work on)
+    for i in range(x.npartitions):
         try:
-            p = dl.compute(scheduler='synchronous')
+            p = x.partitions[i].compute(scheduler='synchronous')
             parts.append(C.Some(observe(p)))
-            if keep is not None:
-                keep.append(p)
-        except Exception:
+            got_frames.append(p)
+        except Exception as e:  # noqa: BLE001
             parts.append(None)
-            if keep is not None:
-                keep.append(None)
+            got_frames.append(None)
+            import traceback
+            tb = traceback.extract_tb(e.__traceback__)
+            PART_ERRORS.append((type(e).__name__, tb[-1].filename if tb else ''))
+    if keep is not None:
+        keep.extend(got_frames)
     try:
         comp = C.Some(observe(x.compute(scheduler='synchronous')))
     except AssertionError:
@@ -158,14 +164,18 @@ def observe_dask(x, keep=None):
         # what dask.dataframe.methods.concat makes of the partitions.
         import pandas as pd
         COMPUTE_ASSERTIONS[0] += 1
-        fr = [dl.compute(scheduler='synchronous') for dl in x.to_delayed()]
-        comp = C.Some(observe(fr[0] if len(fr) == 1 else pd.concat(fr)))
+        fr = [f for f in got_frames if f is not None]
+        if len(fr) != len(got_frames) or not fr:
+            comp = None
+        else:
+            comp = C.Some(observe(fr[0] if len(fr) == 1 else pd.concat(fr)))
     except Exception:
         comp = None
     return (meta, parts, comp)
 
 
 COMPUTE_ASSERTIONS = [0]
+PART_ERRORS = []
 
 
 def is_bad(o):
